@@ -1,14 +1,552 @@
-//! C06 — not implemented yet (stub).
-use crate::report::{Cfg, Meta, Report};
+//! C06 — control flow and procedure inlining follow the documented semantics.
+//!
+//! Oracle (a): structured programs from `models::flow` (if/else, while, repeat, exec of local and
+//! imported procedures with locals; every leaf logs a unique marker in memory and folds it into an
+//! accumulator on the stack; every condition value is scripted through the advice stack) are executed
+//! by the real pipeline and by the reference evaluator; the executed path (memory log), the final
+//! stack and "fails iff a non-binary condition was popped" are compared.
+//! Oracle (b): metamorphic pairs run by the real code only: `repeat.n B end` vs n copies of B,
+//! `exec.f` vs the body of f pasted at the call site, and both together.
+
+use crate::case::{err_kind, AsmOutcome, Case, LibSrc};
+use crate::models::flow::{
+    self, class_of, decision_vector, evaluate, gen_prog, render, signature, DecKind, FlowProg, RefOutcome, Source,
+    Variant, LOG_BASE, LOG_PTR, NON_BINARY, PLAIN, SCRATCH_BASE,
+};
+use crate::report::{merge_all, truncate, Cfg, Meta, Report};
+use crate::util::{catch, par_map, rng_for, Rng8, P};
+use processor::{ContextId, ExecutionOptions, Process, ProcessState, Program};
+use rand::Rng;
+use serde_json::{json, Value};
+use std::collections::BTreeMap;
 
 pub fn meta() -> Meta {
-    Meta { level: "exploration", rule: "stub".into(), assumptions: vec![] }
+    Meta {
+        level: "exploration",
+        rule: "each evaluation = one generated structured program (tree of marker leaves, if/else, while, repeat.n, exec of local/imported procedures with and without locals, nesting up to depth 5) + one condition script (values 0/1/non-binary placed at a chosen decision) executed by the real assembler+processor and compared with the reference evaluator (marker log read back from memory, all final stack positions, fails-iff-non-binary), plus up to three metamorphic variants (repeat unrolled, exec inlined, both) compared on outcome class, final stack and memory; distinct = distinct (nesting signature, decision vector with the position/kind/depth of the non-binary value)".into(),
+        assumptions: vec![
+            "memory and advice instructions used by the logging leaves (mem_load/mem_store/adv_push, add/mul) behave as documented (checked by C05/C07)".into(),
+            "the marker log is read through Process::get_mem_value (cargo feature internals)".into(),
+            "programs are generated, not enumerated: nesting depth <= 5, <= 250 leaves after expansion, <= ~300 executed leaves".into(),
+        ],
+    }
 }
 
-pub fn run(_cfg: &Cfg) -> Report {
-    let mut rep = Report::new();
-    rep.inconclusive("not-implemented");
+// RUNNING THE REAL CODE
+// ================================================================================================
+
+#[derive(Clone, Debug, PartialEq, Eq)]
+pub enum Outcome {
+    Ok,
+    Err(String),
+    Panic(String),
+}
+
+impl Outcome {
+    pub fn class(&self) -> String {
+        match self {
+            Outcome::Ok => "ok".into(),
+            Outcome::Err(k) => format!("err:{k}"),
+            Outcome::Panic(s) => format!("panic:{s}"),
+        }
+    }
+}
+
+#[derive(Clone, Debug)]
+pub struct RealRun {
+    pub outcome: Outcome,
+    pub detail: String,
+    /// final stack, top first (only when ok)
+    pub stack: Vec<u64>,
+    /// marker log read back from memory (also after a failure)
+    pub log: Vec<u64>,
+    /// element 0 of every root-context word outside the scratch region that was ever accessed
+    pub mem: BTreeMap<u64, [u64; 4]>,
+    pub readable: bool,
+}
+
+/// Executes through `Process` so that memory can be inspected afterwards, even after a failure.
+pub fn run_real(case: &Case, prog: &Program) -> RealRun {
+    let mut process = Process::new(prog.kernel().clone(), case.stack_inputs(), case.host(), ExecutionOptions::default());
+    let r = catch(|| process.execute(prog));
+    let (outcome, detail, stack) = match r {
+        Ok(Ok(out)) => (Outcome::Ok, String::new(), out.stack().to_vec()),
+        Ok(Err(e)) => (Outcome::Err(err_kind(&e)), format!("{e:?}"), vec![]),
+        Err(p) => (Outcome::Panic(p.site()), format!("{} at {}", p.message, p.location), vec![]),
+    };
+    let mut log = vec![];
+    let mut mem = BTreeMap::new();
+    let readable = catch(|| {
+        let word = |a: u64| -> [u64; 4] {
+            process
+                .get_mem_value(ContextId::root(), a as u32)
+                .map(|w| [w[0].as_int(), w[1].as_int(), w[2].as_int(), w[3].as_int()])
+                .unwrap_or([0; 4])
+        };
+        let n = word(LOG_PTR)[0];
+        let mut log = vec![];
+        for i in 0..n.min(100_000) {
+            log.push(word(LOG_BASE + i)[0]);
+        }
+        let mut mem = BTreeMap::new();
+        for (a, _) in process.get_mem_state(ContextId::root()) {
+            mem.insert(a, word(a));
+        }
+        (log, mem)
+    });
+    let readable = match readable {
+        Ok((l, m)) => {
+            log = l;
+            mem = m;
+            true
+        }
+        Err(_) => false,
+    };
+    RealRun { outcome, detail, stack, log, mem, readable }
+}
+
+fn make_case(p: &FlowProg, v: Variant, stack: &[u64], script: &[u64]) -> Case {
+    let (src, lib) = render(p, v);
+    let mut c = Case::new(src).with_stack(stack).with_advice(script);
+    if let Some(l) = lib {
+        c.libs.push(LibSrc { namespace: "lib".into(), modules: vec![("lib::m".into(), l)] });
+    }
+    c
+}
+
+fn assemble(case: &Case, rep: &mut Report, what: &str) -> Option<Box<Program>> {
+    match case.assemble() {
+        AsmOutcome::Ok(p) => Some(p),
+        AsmOutcome::Err(e) if e.contains("has the same MAST as another procedure but different number of locals") => {
+            // deliberate, explicit assembler diagnostic (procedure cache keyed by MAST root): a library
+            // procedure whose whole body is `exec.g` has g's MAST root but its own locals count. Not a
+            // control-flow deviation; recorded in the evidence only.
+            rep.count("outcome", "asm-rejected:conflicting-num-locals");
+            None
+        }
+        AsmOutcome::Err(e) => {
+            rep.count("outcome", "asm-err");
+            rep.violation(
+                { let _ = what; "flow/assembly-rejected".to_string() },
+                format!("a documented-valid structured program was rejected by the assembler: {}", truncate(&e, 200)),
+                json!({"kind": "asm", "case": case.to_json()}),
+            );
+            None
+        }
+        AsmOutcome::Panic(pi) => {
+            rep.count("outcome", "asm-panic");
+            rep.violation(
+                format!("flow/assembly-panic/{}", pi.site()),
+                format!("assembler panicked on a structured program: {} at {}", pi.message, pi.location),
+                json!({"kind": "asm", "case": case.to_json()}),
+            );
+            None
+        }
+    }
+}
+
+// ORACLE (a): reference vs real
+// ================================================================================================
+
+pub struct Expect {
+    pub fail: Option<(String, usize)>,
+    pub log: Vec<u64>,
+    pub stack: Vec<u64>,
+}
+
+impl Expect {
+    fn from_ref(o: &RefOutcome) -> Self {
+        Expect { fail: o.fail.map(|(k, d)| (k.name().to_string(), d)), log: o.log.clone(), stack: o.stack.clone() }
+    }
+    fn to_json(&self) -> Value {
+        json!({
+            "fail": self.fail.as_ref().map(|(k, d)| json!({"kind": k, "depth": d})),
+            "log": self.log,
+            "stack": self.stack.iter().map(|v| v.to_string()).collect::<Vec<_>>(),
+        })
+    }
+    fn from_json(v: &Value) -> Option<Self> {
+        let fail = v.get("fail").and_then(|f| {
+            if f.is_null() {
+                None
+            } else {
+                Some((f["kind"].as_str()?.to_string(), f["depth"].as_u64()? as usize))
+            }
+        });
+        let log = v.get("log")?.as_array()?.iter().filter_map(|x| x.as_u64()).collect();
+        let stack = v.get("stack")?.as_array()?.iter().filter_map(|x| x.as_str().and_then(|s| s.parse().ok())).collect();
+        Some(Expect { fail, log, stack })
+    }
+}
+
+fn nb_sig(kind: &str) -> &'static str {
+    match kind {
+        "if" => "if/non-binary-condition",
+        "loop-entry" => "while/non-binary-at-entry",
+        _ => "while/non-binary-after-iteration",
+    }
+}
+
+/// Compares one real run with the expectation of the reference evaluator.
+pub fn check_ref(case: &Case, real: &RealRun, exp: &Expect, rep: &mut Report) {
+    let wit = || json!({"kind": "ref", "case": case.to_json(), "expect": exp.to_json()});
+    rep.count("real_outcome", &real.outcome.class());
+    match (&exp.fail, &real.outcome) {
+        (None, Outcome::Ok) => {
+            if real.log != exp.log {
+                rep.violation(
+                    "flow/path-mismatch",
+                    format!("executed marker sequence {:?} differs from the scripted path {:?}", real.log, exp.log),
+                    wit(),
+                );
+            }
+            if real.stack != exp.stack {
+                rep.violation(
+                    "flow/final-stack-mismatch",
+                    format!("final stack {:?} differs from the reference {:?}", real.stack, exp.stack),
+                    wit(),
+                );
+            }
+        }
+        (None, Outcome::Err(k)) => rep.violation(
+            format!("flow/spurious-failure/{k}"),
+            format!("all popped conditions were binary but execution failed: {}", real.detail),
+            wit(),
+        ),
+        (_, Outcome::Panic(site)) => {
+            let sig = match &exp.fail {
+                Some((k, _)) => format!("{}/panic", nb_sig(k)),
+                None => format!("flow/panic/{site}"),
+            };
+            rep.violation(sig, format!("processor panicked ({}); expected {}", real.detail, if exp.fail.is_some() { "an execution error" } else { "success" }), wit());
+        }
+        (Some((k, d)), Outcome::Ok) => rep.violation(
+            format!("{}/accepted", nb_sig(k)),
+            format!("a non-binary condition value ({k}, nesting depth {d}) did not make execution fail; executed markers {:?}", real.log),
+            wit(),
+        ),
+        (Some((k, _)), Outcome::Err(ek)) => {
+            rep.count("nonbinary_error_kind", &format!("{k}:{ek}"));
+            if real.readable && real.log != exp.log {
+                rep.violation(
+                    "flow/path-before-failure-mismatch",
+                    format!("markers executed before the failure {:?} differ from the scripted path {:?}", real.log, exp.log),
+                    wit(),
+                );
+            }
+            if ek != "NotBinaryValue" {
+                rep.violation(
+                    format!("{}/wrong-error/{ek}", nb_sig(k)),
+                    format!("expected the non-binary-condition failure, got {}", real.detail),
+                    wit(),
+                );
+            }
+        }
+    }
+}
+
+// ORACLE (b): metamorphic pairs
+// ================================================================================================
+
+fn filtered_mem(m: &BTreeMap<u64, [u64; 4]>, skip_scratch: bool) -> BTreeMap<u64, [u64; 4]> {
+    m.iter()
+        .filter(|(a, w)| {
+            if skip_scratch && (**a >= SCRATCH_BASE || (**a >= (1 << 30) && **a < (1 << 31))) {
+                return false;
+            }
+            // a word that was only read (zero) on one side is indistinguishable from an untouched one
+            **w != [0; 4]
+        })
+        .map(|(a, w)| (*a, *w))
+        .collect()
+}
+
+pub fn check_pair(name: &str, a_case: &Case, a: &RealRun, b_case: &Case, b: &RealRun, locals_involved: bool, rep: &mut Report) {
+    let wit = || json!({"kind": "pair", "pair": name, "locals": locals_involved, "case": a_case.to_json(), "case_b": b_case.to_json()});
+    rep.count("pairs", name);
+    if a.outcome.class() != b.outcome.class() {
+        rep.violation(
+            format!("{name}/outcome-differs"),
+            format!("original: {} ({}), transformed: {} ({})", a.outcome.class(), a.detail, b.outcome.class(), b.detail),
+            wit(),
+        );
+        return;
+    }
+    if a.stack != b.stack {
+        rep.violation(format!("{name}/final-stack-differs"), format!("original {:?} vs transformed {:?}", a.stack, b.stack), wit());
+    }
+    if a.readable && b.readable {
+        if a.log != b.log {
+            rep.violation(format!("{name}/log-differs"), format!("original {:?} vs transformed {:?}", a.log, b.log), wit());
+        }
+        let (ma, mb) = (filtered_mem(&a.mem, locals_involved), filtered_mem(&b.mem, locals_involved));
+        if ma != mb {
+            rep.violation(format!("{name}/memory-differs"), "root-context memory differs between the two variants".to_string(), wit());
+        }
+    }
+}
+
+// ONE GENERATED CASE
+// ================================================================================================
+
+fn uses_repeat(p: &FlowProg, o: &RefOutcome) -> bool {
+    let _ = p;
+    !o.repeats.is_empty()
+}
+
+fn run_one(rng: &mut Rng8, rep: &mut Report, idx: usize) {
+    let p = gen_prog(rng);
+    let depth = rng.gen_range(16..=24usize);
+    let stack: Vec<u64> = (0..depth).map(|i| if i == 0 { rng.gen_range(0..P) } else { crate::util::biased_felt(rng) }).collect();
+
+    // 1. dry run: all-binary script drawn by the policy
+    let (dry, mut script) = evaluate(&p, &stack, Source::Gen { rng, script: vec![], leaf_budget: 300 });
+    // 2. place a non-binary value at one of the decisions that are actually reached (60 % of the cases)
+    let mut placed = None;
+    if !dry.decisions.is_empty() && rng.gen_range(0..10) < 6 {
+        // prefer the rarest (kind, depth) among the candidates: pick a random kind/depth class first
+        let want_kind = [DecKind::If, DecKind::LoopEntry, DecKind::AfterIter][rng.gen_range(0..3)];
+        let want_depth = rng.gen_range(1..=3usize);
+        let mut cands: Vec<usize> = dry.decisions.iter().filter(|d| d.kind == want_kind && d.depth == want_depth).map(|d| d.idx).collect();
+        if cands.is_empty() {
+            cands = dry.decisions.iter().filter(|d| d.kind == want_kind).map(|d| d.idx).collect();
+        }
+        if cands.is_empty() {
+            cands = dry.decisions.iter().map(|d| d.idx).collect();
+        }
+        let j = cands[rng.gen_range(0..cands.len())];
+        let v = if rng.gen_range(0..4) == 0 { rng.gen_range(2..P) } else { NON_BINARY[rng.gen_range(0..NON_BINARY.len())] };
+        script[j] = v;
+        placed = Some(j);
+    }
+    // spare binary values: if the real code does not stop at the non-binary value it keeps reading
+    for _ in 0..48 {
+        script.push(rng.gen_range(0..2));
+    }
+    script.extend([0; 64]);
+
+    // 3. reference run on the final script
+    let (refo, _) = evaluate(&p, &stack, Source::Replay { script: &script, pos: 0 });
+    if refo.script_exhausted {
+        rep.count("outcome", "script-exhausted");
+        return;
+    }
+    let sig = signature(&p);
+    let nb = match refo.fail {
+        Some((k, d)) => format!("{}@{}", k.name(), d.min(6)),
+        None => "none".into(),
+    };
+    rep.eval(&format!("{sig}|{}|{nb}", decision_vector(&refo, 40)));
+    rep.count("nonbinary_at", &nb);
+    for d in &refo.decisions {
+        rep.count("decisions", &format!("{}={}@{}", d.kind.name(), class_of(d.value), d.depth.min(6)));
+    }
+    for it in &refo.loop_iters {
+        rep.count("loop_iters", &(if *it >= 2 { ">=2".to_string() } else { it.to_string() }));
+    }
+    for n in &refo.repeats {
+        rep.count("repeat_n", &n.to_string());
+    }
+    for (imp, loc) in &refo.execs {
+        rep.count("exec_kind", &format!("{}-{}", if *imp { "imported" } else { "local" }, if *loc { "locals" } else { "nolocals" }));
+    }
+    rep.count("max_decision_depth", &refo.decisions.iter().map(|d| d.depth).max().unwrap_or(0).to_string());
+    rep.count("stack_depth_in", &depth.to_string());
+    let _ = placed;
+
+    // 4. real run of the program as written
+    let case = make_case(&p, PLAIN, &stack, &script);
+    let prog = match assemble(&case, rep, "plain") {
+        Some(x) => x,
+        None => return,
+    };
+    let real = run_real(&case, &prog);
+    let exp = Expect::from_ref(&refo);
+    check_ref(&case, &real, &exp, rep);
+    if idx % 97 == 0 {
+        rep.sample(json!({"src": truncate(&case.src, 500), "script": script.iter().take(refo.decisions.len()).collect::<Vec<_>>(), "expected_fail": nb, "log": refo.log, "outcome": real.outcome.class()}));
+    }
+
+    // 5. metamorphic variants (real code only)
+    let has_exec = !refo.execs.is_empty() || contains_exec(&p, &p.main);
+    let has_rep = uses_repeat(&p, &refo) || contains_repeat(&p, &p.main);
+    let locals_involved = exec_with_locals(&p, &p.main);
+    let mut variants: Vec<(&str, Variant, bool)> = vec![];
+    if has_rep {
+        variants.push(("repeat-vs-copies", Variant { unroll: true, inline: false }, false));
+    }
+    if has_exec {
+        variants.push(("exec-vs-inlined", Variant { unroll: false, inline: true }, locals_involved));
+    }
+    if has_exec && has_rep {
+        variants.push(("repeat+exec-vs-expanded", Variant { unroll: true, inline: true }, locals_involved));
+    }
+    for (name, v, loc) in variants {
+        let c2 = make_case(&p, v, &stack, &script);
+        let p2 = match assemble(&c2, rep, name) {
+            Some(x) => x,
+            None => continue,
+        };
+        let r2 = run_real(&c2, &p2);
+        check_pair(name, &case, &real, &c2, &r2, loc, rep);
+        if name == "exec-vs-inlined" {
+            rep.count("exec_inline_pairs", if loc { "with-locals" } else { "no-locals" });
+        }
+    }
+
+    // 6. ~1 % of successful executions also go through the AIR monitor
+    if real.outcome == Outcome::Ok && rng.gen_range(0..100) == 0 {
+        if let crate::case::ExecOutcome::Ok(mut t) = case.execute(&prog) {
+            rep.count("air_monitored", "trace");
+            crate::props::c03::monitor_trace(&case, &mut t, rng, 1, 0, rep);
+        }
+    }
+}
+
+fn walk(p: &FlowProg, b: &[flow::Node], f: &mut dyn FnMut(&flow::Node), depth: usize) {
+    for n in b {
+        f(n);
+        match n {
+            flow::Node::If { then_, else_ } => {
+                walk(p, then_, f, depth);
+                if let Some(e) = else_ {
+                    walk(p, e, f, depth);
+                }
+            }
+            flow::Node::While { body } | flow::Node::Repeat { body, .. } => walk(p, body, f, depth),
+            flow::Node::Exec { proc_ } if depth < 16 => walk(p, &p.procs[*proc_].body, f, depth + 1),
+            _ => {}
+        }
+    }
+}
+
+fn contains_exec(p: &FlowProg, b: &[flow::Node]) -> bool {
+    let mut x = false;
+    walk(p, b, &mut |n| x |= matches!(n, flow::Node::Exec { .. }), 0);
+    x
+}
+fn contains_repeat(p: &FlowProg, b: &[flow::Node]) -> bool {
+    let mut x = false;
+    walk(p, b, &mut |n| x |= matches!(n, flow::Node::Repeat { .. }), 0);
+    x
+}
+fn exec_with_locals(p: &FlowProg, b: &[flow::Node]) -> bool {
+    let mut x = false;
+    walk(p, b, &mut |n| {
+        if let flow::Node::Exec { proc_ } = n {
+            x |= p.procs[*proc_].locals > 0
+        }
+    }, 0);
+    x
+}
+
+// FIXED WITNESS PROGRAMS (minimal forms of the three non-binary placements, depth 1)
+// ================================================================================================
+
+fn fixed_cases(rep: &mut Report) {
+    let progs: [(&str, &str, &str); 6] = [
+        ("if", "begin push.2 if.true push.7 else push.8 end end", "if"),
+        ("loop-entry", "begin push.2 while.true push.0 end end", "loop-entry"),
+        ("after-iteration", "begin push.1 while.true push.2 end end", "after-iteration"),
+        ("if", "begin push.18446744069414584320 if.true push.7 else push.8 end end", "if"),
+        ("loop-entry", "begin push.4294967296 while.true push.0 end end", "loop-entry"),
+        ("after-iteration", "begin push.1 while.true push.18446744069414584320 end end", "after-iteration"),
+    ];
+    for (name, src, kind) in progs {
+        let case = Case::new(src);
+        rep.eval(&format!("fixed|{src}"));
+        rep.count("fixed_witness", name);
+        let prog = match assemble(&case, rep, "fixed") {
+            Some(p) => p,
+            None => continue,
+        };
+        let real = run_real(&case, &prog);
+        let exp = Expect { fail: Some((kind.to_string(), 1)), log: vec![], stack: vec![] };
+        check_ref(&case, &real, &exp, rep);
+    }
+}
+
+pub fn run(cfg: &Cfg) -> Report {
+    let shards = 64;
+    let per = cfg.n(1500, 15000);
+    let mut reports = par_map(shards, |sh| {
+        let mut rng = rng_for(cfg.seed, "C06", sh as u64);
+        let mut rep = Report::new();
+        for i in 0..per {
+            run_one(&mut rng, &mut rep, i);
+        }
+        rep
+    });
+    let mut fx = Report::new();
+    fixed_cases(&mut fx);
+    reports.push(fx);
+    let mut rep = merge_all(reports);
+    for kind in ["if", "loop-entry", "after-iteration"] {
+        for d in 1..=3 {
+            let k = format!("{kind}@{d}");
+            rep.floor(rep.get_count("nonbinary_at", &k) >= 3, &format!("non-binary-{k}"));
+        }
+    }
+    for it in ["0", "1", ">=2"] {
+        rep.floor(rep.get_count("loop_iters", it) >= 10, &format!("loops-with-{it}-iterations"));
+    }
+    rep.floor(rep.get_count("repeat_n", "1") >= 5 && rep.hist_len("repeat_n") >= 4, "repeat-counts-1-and-up");
+    for k in ["local-nolocals", "local-locals", "imported-nolocals", "imported-locals"] {
+        rep.floor(rep.get_count("exec_kind", k) >= 5, &format!("exec-{k}"));
+    }
+    for k in ["repeat-vs-copies", "exec-vs-inlined", "repeat+exec-vs-expanded"] {
+        rep.floor(rep.get_count("pairs", k) >= 20, &format!("pairs-{k}"));
+    }
+    rep.floor(rep.get_count("exec_inline_pairs", "with-locals") >= 5 && rep.get_count("exec_inline_pairs", "no-locals") >= 5, "exec-inline-pairs-with-and-without-locals");
+    rep.floor(rep.get_count("real_outcome", "ok") >= 50, "at-least-50-successful-executions");
+    rep.floor(rep.get_count("air_monitored", "trace") >= 1, "air-monitor-sampled");
     rep
 }
 
-pub fn replay(_v: &serde_json::Value, _rep: &mut Report) {}
+pub fn replay(v: &Value, rep: &mut Report) {
+    let case = match v.get("case").and_then(Case::from_json) {
+        Some(c) => c,
+        None => return,
+    };
+    match v.get("kind").and_then(|k| k.as_str()).unwrap_or("") {
+        "ref" => {
+            let exp = match v.get("expect").and_then(Expect::from_json) {
+                Some(e) => e,
+                None => return,
+            };
+            if let Some(prog) = assemble(&case, rep, "replay") {
+                rep.eval("replay-ref");
+                let real = run_real(&case, &prog);
+                check_ref(&case, &real, &exp, rep);
+            }
+        }
+        "pair" => {
+            let cb = match v.get("case_b").and_then(Case::from_json) {
+                Some(c) => c,
+                None => return,
+            };
+            let name = v.get("pair").and_then(|s| s.as_str()).unwrap_or("pair").to_string();
+            let loc = v.get("locals").and_then(|b| b.as_bool()).unwrap_or(true);
+            if let (Some(pa), Some(pb)) = (assemble(&case, rep, "replay"), assemble(&cb, rep, "replay")) {
+                rep.eval("replay-pair");
+                let (ra, rb) = (run_real(&case, &pa), run_real(&cb, &pb));
+                check_pair(&name, &case, &ra, &cb, &rb, loc, rep);
+            }
+        }
+        "asm" => {
+            rep.eval("replay-asm");
+            let _ = assemble(&case, rep, "replay");
+        }
+        "case" => {
+            // from the AIR side monitor
+            let mut rng = rng_for(0, "C06-replay", 0);
+            if let Some(prog) = assemble(&case, rep, "replay") {
+                if let crate::case::ExecOutcome::Ok(mut t) = case.execute(&prog) {
+                    rep.eval("replay-air");
+                    crate::props::c03::monitor_trace(&case, &mut t, &mut rng, 1, 0, rep);
+                }
+            }
+        }
+        _ => {}
+    }
+}
